@@ -95,10 +95,18 @@ static const char *E_RULE_INVALID = "org.freedesktop.DBus.Error.MatchRuleInvalid
 
 // A message the bus itself originates is subject only to the recipient's receive rules; a recipient
 // that has not completed Hello has no policy yet and can be told anything by the bus.
-bool Model::bus_may_deliver(int r, const wire::Msg &m) {
-  if (r < 0 || (size_t)r >= conns.size()) return false;
-  if (!can_receive || !conns[(size_t)r].hello) return true;
-  return can_receive(-1, m, r, r, m.reply_serial() != 0);
+int Model::bus_may_deliver(int r, const wire::Msg &m) {
+  if (r < 0 || (size_t)r >= conns.size()) return 0;
+  // "max_outgoing_bytes": a recipient that does not read loses what is sent to it beyond the limit, bus-originated
+  // replies and signals included (they are dropped, there is nobody to tell)
+  bool undetermined = false;
+  if (queue_full) {
+    if (multi_txn && emitted_in_event[r]++ > 0) undetermined = true;   // an earlier transaction of this event has grown the queue since it was read
+    else if (queue_full(r)) { probes["dropped_recipient_queue_full"]++; return 0; }
+  }
+  if (!can_receive || !conns[(size_t)r].hello) return undetermined ? 2 : 1;
+  if (!can_receive(-1, m, r, r, m.reply_serial() != 0)) return 0;
+  return undetermined ? 2 : 1;
 }
 
 void Model::emit_from_bus(int r, Exp e, bool fl) {
@@ -107,7 +115,9 @@ void Model::emit_from_bus(int r, Exp e, bool fl) {
     Exp c = e;
     capture_loose(c, r, fl);
   }
-  if (!bus_may_deliver(r, e.m)) {
+  int verdict = bus_may_deliver(r, e.m);
+  if (verdict == 2) e.optional = true;
+  if (!verdict) {
     probes["bus_message_refused_by_receive_policy"]++;
     // monitors may additionally be shown the refusal itself: an AccessDenied error "in reply to" the
     // refused message, addressed to the bus
@@ -276,6 +286,23 @@ void Model::route(int sender, const wire::Msg &m, int addressed) {
     if (sender >= 0 && can_send && !can_send(sender, m, addressed, addressed, requested)) ok = false;
     if (ok && can_receive && !can_receive(sender, m, addressed, addressed, requested)) ok = false;
     if (ok && m.unix_fds() > 0 && !conns[(size_t)addressed].fdpass) ok = false;
+    if (ok && queue_full && queue_full(addressed)) {
+      // the addressee's queue in the bus is over max_outgoing_bytes: refused with LimitsExceeded, nothing is
+      // delivered and no reply is awaited
+      probes["unicast_refused_queue_full"]++;
+      if (sender >= 0) {
+        Exp e;
+        e.from_bus = true;
+        e.m = wire::Msg::error(1, m.serial, U(sender), E_LIMITS);
+        e.m.set_field(wire::F_SENDER, wire::Value::string(BUS));
+        e.ignore_body = true;
+        e.optional = m.type != wire::T_CALL || (m.flags & wire::FL_NO_REPLY_EXPECTED) != 0;
+        e.what = "error: the destination's message queue is full";
+        e.prop = "C05";
+        emit_from_bus(sender, e);
+      }
+      return;
+    }
     if (!ok) {
       probes["unicast_refused"]++;
       if (sender >= 0) {
@@ -354,12 +381,17 @@ void Model::route_matches(int sender, const wire::Msg &m, int addressed, bool re
       if (refused) { monitors_may_see_refusal(sender, m); continue; }
     } else if (can_send) monitors_may_see_refusal(sender, m);
     if (m.unix_fds() > 0 && !k.fdpass) continue;
+    bool queue_undetermined = false;
+    if (queue_full) {
+      if (multi_txn && emitted_in_event[(int)rc]++ > 0) queue_undetermined = true;
+      else if (queue_full((int)rc)) { probes["dropped_recipient_queue_full"]++; continue; }
+    }
     Exp e;
     e.from_bus = sender < 0;
     e.m = m;
     e.what = eavesdropping ? "eavesdropped copy" : "broadcast delivery";
     e.prop = eavesdropping ? "C05" : (sender < 0 ? "C04" : "C07");
-    e.optional = eavesdropping || (int)rc == becoming_monitor;   // mid-transition: rules may or may not be gone yet
+    e.optional = eavesdropping || queue_undetermined || (int)rc == becoming_monitor;   // mid-transition: rules may or may not be gone yet
     if (eavesdropping) probes["eavesdrop_copy"]++; else probes["broadcast_copy"]++;
     emit((int)rc, e);
   }
@@ -468,6 +500,7 @@ void Model::disconnect(int c) {
   Conn &k = conns[(size_t)c];
   if (!k.alive) return;
   k.alive = false;   // first: a dead connection receives nothing, owns nothing
+  struct Multi { Model &m; explicit Multi(Model &mm) : m(mm) { m.multi_txn = true; m.emitted_in_event.clear(); } ~Multi() { m.multi_txn = false; } } multi(*this);
   // every claim on a well-known name goes away (order among names is not specified)
   std::vector<std::string> held;
   for (auto &kv : names)
